@@ -41,6 +41,28 @@ func variablesForArgMode(atom ast.Atom, mode ast.Mode, mask ast.ArgMode) []ast.V
 	return boundVars
 }
 
+// checkApplyArgsBound checks that every variable inside a function application
+// among the arguments of a built-in atom already has a value. The function
+// application is evaluated before the built-in is decided; it cannot give a
+// value to its variables, not even when the same atom mentions them directly
+// in an output argument.
+func checkApplyArgsBound(p ast.Atom, boundVars map[ast.Variable]bool) error {
+	for _, arg := range p.Args {
+		apply, ok := arg.(ast.ApplyFn)
+		if !ok {
+			continue
+		}
+		vars := make(map[ast.Variable]bool)
+		ast.AddVars(apply, vars)
+		for v := range vars {
+			if !boundVars[v] {
+				return fmt.Errorf("variable %v in %v will not have a value yet; move the subgoal to the right", v, p)
+			}
+		}
+	}
+	return nil
+}
+
 // CheckRule checks arity and that every variable appearing is bound.
 // A variable is bound when:
 // - it appears in a positive atom, or
@@ -117,6 +139,9 @@ func (a *Analyzer) CheckRule(clause ast.Clause) error {
 					continue
 				}
 				// For builtin predicates, there is exactly one mode.
+				if err := checkApplyArgsBound(p, boundVars); err != nil {
+					return err
+				}
 				var builtinVars = make(map[ast.Variable]bool)
 				ast.AddVars(p, builtinVars)
 				mode := builtin.Predicates[p.Predicate]
